@@ -20,6 +20,7 @@ import (
 	"net/url"
 	"os"
 	"reflect"
+	"strconv"
 	"strings"
 	"syscall"
 	"time"
@@ -56,7 +57,7 @@ type cVar struct {
 	Meth  string `json:"meth"` // request method (GET / HEAD / POST): a HEAD response forwards no body but is "written" all the same
 	RH    bool   `json:"rh"`   // a custom ReturnHandler is mapped in the injector: it replaces the default table
 	Der   bool   `json:"der"`  // "C" installs a derived request context first and cancels that one
-	WK    int    `json:"wk"`   // how "W" touches the response: 0 always WriteHeader(200+h); else per handler WriteHeader / Write(bytes) / Write(nil) / Flush() / io.Copy
+	WK    int    `json:"wk"`   // how "W" touches the response: 0 always WriteHeader(200+h); else per handler WriteHeader / Write(bytes) / Write(nil) / Flush() / io.Copy / WriteHeader(1xx)
 	Upg   bool   `json:"upg"`  // the request asks for a protocol upgrade (Connection: Upgrade), as a WebSocket handshake does
 	Form  int    `json:"form"` // > 0: handlers whose program needs no Context are declared without one (net/http forms, func() T)
 	DL    bool   `json:"dl"`   // ... and that derived context ends by an expired deadline (the timeout-middleware case) rather than by cancel()
@@ -74,21 +75,46 @@ type chainSpy struct {
 	code   int
 	chunks []string
 	x      *chainExec
+	clen   int64 // the Content-Length declared when the status went out (-1: none), enforced as a net/http connection does
+	sent   int64
+}
+
+// commit is the moment the header goes out: a declared Content-Length is binding from here on.
+func (s *chainSpy) commit(code int) {
+	if s.code != 0 {
+		return
+	}
+	s.code, s.clen = code, -1
+	if v := s.hdr.Get("Content-Length"); v != "" {
+		if n, err := strconv.ParseInt(v, 10, 64); err == nil && n >= 0 {
+			s.clen = n
+		}
+	}
 }
 
 func (s *chainSpy) Header() http.Header { return s.hdr }
 func (s *chainSpy) WriteHeader(c int) {
-	if s.code == 0 {
-		s.code = c
+	if c < 100 || c > 999 {
+		// as the writer of a net/http connection (and httptest.ResponseRecorder) does: nothing is sent
+		panic(fmt.Sprintf("invalid WriteHeader code %v %s", c, s.x.marker()))
 	}
+	s.commit(c)
 }
 func (s *chainSpy) Write(b []byte) (int, error) {
-	if s.code == 0 {
-		s.code = 200
-	}
+	s.commit(200)
 	if len(b) == 0 {
 		return 0, nil
 	}
+	if s.clen >= 0 && s.sent+int64(len(b)) > s.clen {
+		// more than declared: the surplus never reaches the client
+		keep := s.clen - s.sent
+		if keep > 0 {
+			s.sent += keep
+			s.chunks = append(s.chunks, encBytes(string(b[:keep])))
+		}
+		return int(keep), http.ErrContentLength
+	}
+	s.sent += int64(len(b))
 	if s.x.inRec > 0 && s.x.inRecNext == 0 {
 		if strings.Contains(string(b), s.x.marker()) {
 			s.x.detail = true
@@ -171,7 +197,7 @@ func (x *chainExec) body(h int, c flamego.Context) {
 			// the ways a handler can start the response: explicit status, body bytes, an empty body write, a flush
 			wk := 0
 			if x.v.WK > 0 {
-				wk = (x.v.WK + h) % 5
+				wk = (x.v.WK + h) % 6
 			}
 			switch wk {
 			case 0:
@@ -184,6 +210,11 @@ func (x *chainExec) body(h int, c flamego.Context) {
 			case 2:
 				_, _ = c.ResponseWriter().Write(nil)
 				x.ev(map[string]interface{}{"e": "write", "h": h, "code": 200, "b": ""})
+			case 5:
+				// an informational / protocol-switching status is a status like any other to the writer: the response has begun
+				code := []int{101, 103}[h%2]
+				c.ResponseWriter().WriteHeader(code)
+				x.ev(map[string]interface{}{"e": "write", "h": h, "code": code, "b": ""})
 			case 4:
 				// streamed with io.Copy from a source without WriteTo: Copy looks for ReadFrom on the destination
 				// (the underlying writer of this harness has one, as the writer of a real server connection does)
@@ -243,6 +274,11 @@ func (x *chainExec) body(h int, c flamego.Context) {
 				// handler's own WriteHeader call and before any status went out
 				c.ResponseWriter().Before(func(flamego.ResponseWriter) { panic(x.panicVal()) })
 				c.ResponseWriter().WriteHeader(200 + h)
+			}
+			if x.v.PK == "badcode" && c != nil && !c.ResponseWriter().Written() {
+				// the panic is raised by the UNDERLYING writer, which refuses the status code the handler asks for
+				// (a handler returning (0, "...") gets there too): no status went out
+				c.ResponseWriter().WriteHeader(0)
 			}
 			panic(x.panicVal())
 		}
@@ -564,10 +600,10 @@ func chainVarFor(c *chainCase, idx int) cVar {
 	rng := rand.New(rand.NewSource(int64(idx)*7919 + int64(envInt("VERIF_SEED", 1))))
 	n := c.N
 	v := cVar{Env: []string{"development", "production", "test"}[rng.Intn(3)],
-		PK: []string{"string", "error", "runtime", "struct", "abort", "deepnosrc", "hook", "epipe"}[rng.Intn(8)], Fast: rng.Intn(3), Reqs: 1 + rng.Intn(2)}
+		PK: []string{"string", "error", "runtime", "struct", "abort", "deepnosrc", "hook", "epipe", "badcode"}[rng.Intn(9)], Fast: rng.Intn(3), Reqs: 1 + rng.Intn(2)}
 	v.Der = rng.Intn(2) == 0
 	v.DL = v.Der && rng.Intn(2) == 0
-	v.WK = rng.Intn(6)
+	v.WK = rng.Intn(7)
 	v.Form = rng.Intn(2)
 	v.Upg = rng.Intn(5) == 0
 	v.RH = rng.Intn(5) == 0
@@ -727,7 +763,7 @@ func chainReplay(raw json.RawMessage, idx int, tr *traceWriter) {
 		}()
 		select {
 		case <-done:
-		case <-time.After(time.Duration(envInt("VERIF_HANG_SECONDS", 8)) * time.Second):
+		case <-time.After(time.Duration(envInt("VERIF_HANG_SECONDS", 20)) * time.Second):
 			// ServeHTTP does not return: record it and stop the harness (the goroutine cannot be killed); the cases
 			// after this one are not run - the verdict on this one stands on its own
 			x.ev(map[string]interface{}{"e": "hang"})
